@@ -28,6 +28,7 @@ Section Lines.
   Variable plines : list string -> node -> nat -> nat * nat.
   Variables metric_ok lname_ok lvalue_ok dur_ok : string -> bool.
   Variable int_ok : node -> bool.
+  Variable null_ok : node -> bool.
   Variable T : nat.                       (* number of lines of the file (File.TotalLines) *)
 
   Definition good (x : nat) : Prop := 1 <= x /\ x <= T.
@@ -358,7 +359,7 @@ Section Lines.
       destruct (negb (is_tag (n_tag v) strTag)).
       - inversion H; subst. cbn [pe_line]. exact (proj1 (fits_good off v Hv)).
       - destruct (mem_str (n_value k) seen).
-        + inversion H; subst. cbn [pe_line]. exact (proj2 (fits_good off k Hk)).
+        + inversion H; subst. cbn [pe_line]. exact (proj1 (fits_good off k Hk)).
         + eapply IH; [|exact H]. intros k0 v0 H0. apply Hl. right. exact H0.
     Qed.
 
@@ -568,7 +569,7 @@ Section Lines.
     Lemma parse_rule_strict_ok n : fits 0 n -> rule_lines_ok (PRS n).
     Proof.
       intros Hn. pose proof (proj2 (fits_good 0 n Hn)) as Gn. unfold parse_rule_strict.
-      destruct (negb (is_tag (n_tag n) mapTag)); [apply err_rule_ok; exact Gn|].
+      destruct (negb (is_tag (n_tag n) mapTag) || kind_mismatch n KMapping)%bool; [apply err_rule_ok; exact Gn|].
       destruct (bad_rule_key (unpack_nodes n)) as [k|] eqn:B.
       - apply err_rule_ok. exact (proj2 (fits_good 0 k (fits_unpack 0 n k Hn (bad_rule_key_In _ _ B)))).
       - pose proof (parse_rule_ok lines 0 Hlen0 n Hn) as P.
@@ -580,6 +581,9 @@ Section Lines.
       fits 0 k -> fits 0 v -> group_ok g -> GE g k v = inl g1 \/ GE g k v = inr g1 -> group_ok g1.
     Proof.
       intros Hk Hv Hg H. pose proof (proj2 (fits_good 0 k Hk)) as Gk. unfold group_entry in H.
+      assert (Hv' : fits 0 (match n_alias v with Some t => t | None => v end)).
+      { destruct (n_alias v) as [t|] eqn:Ea; [exact (fits_alias 0 v t Hv Ea)|exact Hv]. }
+      set (v' := match n_alias v with Some t => t | None => v end) in *.
       repeat match type of H with
              | context [match validate_string_map ?a ?b ?c ?d with _ => _ end] =>
                  destruct (validate_string_map a b c d) as [[pe0 lr0]|] eqn:V
@@ -592,11 +596,11 @@ Section Lines.
       all: first
         [ apply g_add_rules_ok; [exact Hg|]; intros r Hr; apply in_map_iff in Hr; destruct Hr as (c & <- & Hc);
           apply parse_rule_strict_ok; exact (fits_unpack 0 v c Hv Hc)
-        | apply g_set_labels_ok; [exact Hg|]; exact (nym_ok lines 0 Hlen0 k v Hk Hv)
+        | apply g_set_labels_ok; [exact Hg|]; exact (nym_ok lines 0 Hlen0 k v' Hk Hv')
         | apply gerr_ok; [exact Hg|]; unfold validate_string_map in V; eapply vsm_ok; [|exact V];
-          intros k0 v0 H0; exact (fits_mapping 0 v k0 v0 Hv H0)
+          intros k0 v0 H0; exact (fits_mapping 0 v' k0 v0 Hv' H0)
         | apply gerr_ok; [exact Hg|]; eapply bad_group_label_ok; [|exact BG];
-          intros k0 v0 H0; exact (fits_mapping 0 v k0 v0 Hv H0) ].
+          intros k0 v0 H0; exact (fits_mapping 0 v' k0 v0 Hv' H0) ].
     Qed.
 
     Lemma group_loop_ok im nl : good nl -> forall l g sk,
@@ -616,7 +620,7 @@ Section Lines.
     Lemma parse_group_ok n : fits 0 n -> group_ok (PG n).
     Proof.
       intros Hn. pose proof (proj2 (fits_good 0 n Hn)) as Gn. unfold parse_group.
-      destruct (negb (is_tag (n_tag n) mapTag)); [apply gerr_ok; [exact empty_group_ok|exact Gn]|].
+      destruct (negb (is_tag (n_tag n) mapTag) || kind_mismatch n KMapping)%bool; [apply gerr_ok; [exact empty_group_ok|exact Gn]|].
       apply group_loop_ok; [exact Gn| |exact empty_group_ok].
       intros k v H. exact (fits_mapping 0 n k v Hn H).
     Qed.
@@ -644,7 +648,7 @@ Section Lines.
       destruct (negb (n_tag k =? strTag)); [exact Gk|].
       destruct (negb (node_value k =? "groups")); [exact Gk|].
       destruct hg; [exact Gk|].
-      destruct (negb (is_tag (n_tag v) seqTag)); [exact Gk|].
+      destruct (negb (is_tag (n_tag v) seqTag) || kind_mismatch v KSequence)%bool; [exact Gk|].
       pose proof (groups_of_seq_ok (unpack_nodes v) names acc (fun c Hc => fits_unpack 0 v c Hv Hc) Ha) as S.
       destruct (groups_of_seq plines metric_ok lname_ok lvalue_ok dur_ok int_ok thanos lines (unpack_nodes v) names acc) as [e|[n1 a1]];
         [exact S|].
@@ -657,7 +661,7 @@ Section Lines.
     Proof.
       induction roots as [|n r IH]; intros names acc Hr Ha; cbn [groups_of_roots]; [exact Ha|].
       pose proof (Hr n (or_introl eq_refl)) as Hn.
-      destruct (negb (is_tag (n_tag n) mapTag)); [exact (proj2 (fits_good 0 n Hn))|].
+      destruct (negb (is_tag (n_tag n) mapTag) || kind_mismatch n KMapping)%bool; [exact (proj2 (fits_good 0 n Hn))|].
       pose proof (groups_of_entries_ok (mapping_nodes n) false names acc (fun k v H => fits_mapping 0 n k v Hn H) Ha) as S.
       destruct (groups_of_entries plines metric_ok lname_ok lvalue_ok dur_ok int_ok thanos lines (mapping_nodes n) false names acc) as [e|[n1 a1]];
         [exact S|].
@@ -676,18 +680,100 @@ Section Lines.
     Qed.
   End Strict.
 
+  Lemma nodes_size_In c : forall l, In c l -> node_size c <= nodes_size l.
+  Proof.
+    induction l as [|x r IH]; intros H; [destruct H|]. cbn [nodes_size].
+    destruct H as [->|H]; [lia|]. specialize (IH H). lia.
+  Qed.
+
   Definition oerr_ok (o : option perror) : Prop := forall pe, o = Some pe -> good (pe_line pe).
+
+  (** the strict pre-passes (b9483ac, e113542) report the line of a node of the document *)
+  Fixpoint find_first {A} (f : A -> option node) (l : list A) : option node :=
+    match l with
+    | [] => None
+    | c :: r => match f c with Some x => Some x | None => find_first f r end
+    end.
+
+  Lemma find_node_eq P n :
+    find_node P n =
+    match P n with
+    | Some x => Some x
+    | None =>
+        match (match n_alias n with Some t => find_node P t | None => None end) with
+        | Some x => Some x
+        | None => find_first (find_node P) (n_content n)
+        end
+    end.
+  Proof.
+    destruct n as [k t v l c a content al em]. cbn [find_node n_alias n_content].
+    destruct (P _); [reflexivity|].
+    destruct (match al with Some t0 => find_node P t0 | None => None end); [reflexivity|].
+    induction content as [|x r IH]; [reflexivity|]. cbn [find_first]. destruct (find_node P x); [reflexivity|exact IH].
+  Qed.
+
+  Lemma find_node_fits P off :
+    (forall n x, fits off n -> P n = Some x -> fits off x) ->
+    forall k n x, node_size n <= k -> fits off n -> find_node P n = Some x -> fits off x.
+  Proof.
+    intros HP. induction k as [|k IH]; intros n x Hk Hn H; [rewrite node_size_eq in Hk; lia|].
+    rewrite node_size_eq in Hk. rewrite find_node_eq in H.
+    destruct (P n) as [y|] eqn:Pn; [inversion H; subst; exact (HP n x Hn Pn)|].
+    destruct (n_alias n) as [t|] eqn:Ea.
+    - destruct (find_node P t) as [y|] eqn:Ft.
+      + inversion H; subst. apply (IH t x); [lia|exact (fits_alias off n t Hn Ea)|exact Ft].
+      + assert (G : forall l, (forall c, In c l -> In c (n_content n)) -> find_first (find_node P) l = Some x -> fits off x).
+        { induction l as [|c r IHl]; intros Hl Hf; [discriminate|]. cbn [find_first] in Hf.
+          destruct (find_node P c) as [z|] eqn:Fc.
+          - inversion Hf; subst. apply (IH c x); [|exact (fits_content off n c Hn (Hl c (or_introl eq_refl)))|exact Fc].
+            pose proof (nodes_size_In c _ (Hl c (or_introl eq_refl))). lia.
+          - apply IHl; [intros c0 H0; apply Hl; right; exact H0|exact Hf]. }
+        exact (G _ (fun c Hc => Hc) H).
+    - assert (G : forall l, (forall c, In c l -> In c (n_content n)) -> find_first (find_node P) l = Some x -> fits off x).
+      { induction l as [|c r IHl]; intros Hl Hf; [discriminate|]. cbn [find_first] in Hf.
+        destruct (find_node P c) as [z|] eqn:Fc.
+        - inversion Hf; subst. apply (IH c x); [|exact (fits_content off n c Hn (Hl c (or_introl eq_refl)))|exact Fc].
+          pose proof (nodes_size_In c _ (Hl c (or_introl eq_refl))). lia.
+        - apply IHl; [intros c0 H0; apply Hl; right; exact H0|exact Hf]. }
+      exact (G _ (fun c Hc => Hc) H).
+  Qed.
+
+  Lemma second_merge_key_In : forall l m x, second_merge_key l m = Some x -> In x l.
+  Proof.
+    fix IH 1. intros [|k [|v r]] m x H; cbn [second_merge_key] in H; try discriminate.
+    destruct ((n_tag k =? mergeTag) && (n_value k =? "<<"))%bool.
+    - destruct m; [right; right; exact (IH r 1 x H)|inversion H; subst; left; reflexivity].
+    - right. right. exact (IH r m x H).
+  Qed.
+
+  Lemma strict_prepass_ok d e : fits 0 d -> strict_prepass null_ok d = Some e -> good (pe_line e).
+  Proof.
+    intros Hd. unfold strict_prepass.
+    destruct (find_node (null_with_text null_ok) d) as [n|] eqn:F1.
+    - intros H. inversion H; subst. cbn [pe_line].
+      apply (fun X => proj2 (fits_good 0 n X)).
+      apply (find_node_fits (null_with_text null_ok) 0) with (k := node_size d) (n := d); [|apply le_n|exact Hd|exact F1].
+      intros n0 x Hn0 Hp. unfold null_with_text in Hp. destruct (_ && _ && _)%bool; [inversion Hp; subst; exact Hn0|discriminate].
+    - destruct (find_node dup_merge_key d) as [n|] eqn:F2; [|discriminate].
+      intros H. inversion H; subst. cbn [pe_line].
+      apply (fun X => proj2 (fits_good 0 n X)).
+      apply (find_node_fits dup_merge_key 0) with (k := node_size d) (n := d); [|apply le_n|exact Hd|exact F2].
+      intros n0 x Hn0 Hp. unfold dup_merge_key in Hp. destruct (kind_eqb (n_kind n0) KMapping); [|discriminate].
+      exact (fits_content 0 n0 x Hn0 (second_merge_key_In _ _ _ Hp)).
+  Qed.
 
   Lemma parse_strict_loop_ok thanos all_lines yerr :
     List.length all_lines <= T -> oerr_ok yerr ->
     forall ds idx groups err,
       (forall d nl, In (d, nl) ds -> fits 0 d) -> groups_ok groups -> oerr_ok err ->
-      file_ok (parse_strict_loop plines metric_ok lname_ok lvalue_ok dur_ok int_ok thanos all_lines ds yerr idx groups err).
+      file_ok (parse_strict_loop plines metric_ok lname_ok lvalue_ok dur_ok int_ok null_ok thanos all_lines ds yerr idx groups err).
   Proof.
     intros HT Hy. induction ds as [|[d nl] r IH]; intros idx groups err Hds Hg He; cbn [parse_strict_loop].
     - destruct yerr as [e|]; (split; [|exact Hg]); cbn [f_error]; [exact Hy|exact He].
     - pose proof (Hds d nl (or_introl eq_refl)) as Hd.
       assert (Hl : elen (firstn nl all_lines) <= T) by (pose proof (elen_firstn nl all_lines); lia).
+      destruct (strict_prepass null_ok d) as [e0|] eqn:SP.
+      { split; [|exact Hg]. intros pe E. cbn [f_error] in E. inversion E; subst. exact (strict_prepass_ok d pe Hd SP). }
       pose proof (parse_groups_ok thanos (firstn nl all_lines) Hl d Hd) as P.
       destruct (parse_groups plines metric_ok lname_ok lvalue_ok dur_ok int_ok thanos (firstn nl all_lines) d) as [e|gs].
       + split; [|exact Hg]. intros pe E. cbn [f_error] in E. inversion E; subst. exact P.
@@ -698,7 +784,7 @@ Section Lines.
 
   Theorem strict_lines_inside thanos all_lines ds yerr :
     List.length all_lines <= T -> oerr_ok yerr -> (forall d nl, In (d, nl) ds -> fits 0 d) ->
-    file_ok (parse_strict plines metric_ok lname_ok lvalue_ok dur_ok int_ok thanos all_lines ds yerr).
+    file_ok (parse_strict plines metric_ok lname_ok lvalue_ok dur_ok int_ok null_ok thanos all_lines ds yerr).
   Proof.
     intros HT Hy Hds. unfold parse_strict. apply parse_strict_loop_ok; try assumption; [exact groups_ok_nil|intros pe E; discriminate E].
   Qed.
@@ -879,12 +965,6 @@ Section Lines.
                  = forallb (fits_b T off) content).
     { induction content as [|x r IH]; cbn [forallb]; [reflexivity|]. now rewrite IH. }
     rewrite H. reflexivity.
-  Qed.
-
-  Lemma nodes_size_In c : forall l, In c l -> node_size c <= nodes_size l.
-  Proof.
-    induction l as [|x r IH]; intros H; [destruct H|]. cbn [nodes_size].
-    destruct H as [->|H]; [lia|]. specialize (IH H). lia.
   Qed.
 
   Lemma fits_b_sound : forall k off n, node_size n <= k -> fits_b T off n = true -> fits off n.
